@@ -53,6 +53,7 @@ type Frame struct {
 	entryNames map[string]Value
 	dryGhostSets map[string]bool // ghost variables assigned during loop dry runs
 	callDepth int
+	snaps     map[string]*State // named state snapshots (`snapshot NAME ...`), read by at(NAME, expr)
 }
 
 func (f *Frame) lookupLocal(name string, pos token.Pos) types.Object {
